@@ -10,7 +10,7 @@ RUNNER_COMPONENTS = {
              "Result.create/update/merge"],
     "fake": ["wall clock (VirtualClock bound to runner.time)", "file system (SimDisk bound to results.open, runner.os, results.os, parameters.open)",
              "user program (_run_simulation/_keep_going/_on_* callbacks scripted from the plan)"],
-    "stub_or_not_run": ["progress bars (style None)", "simulate_in_parallel / ipyparallel (not installed)", "config-file parsing"],
+    "stub_or_not_run": ["simulate_in_parallel / ipyparallel (not installed)", "config-file parsing"],
 }
 
 DEFS = {
@@ -96,12 +96,12 @@ DEFS = {
                  "1..min(Nr,Nt)-1 streams, initialisation mode, 1-60 iterations, scalar/vector/default power, and 2-12 operations from solve / randomizeF / set_precoders(F|full_F[,P]) / "
                  "set_receive_filters(W|W_H) / P= / clear / reads of the derived quantities (reads populate caches). While solve runs, _step is wrapped on the instance and the leaked "
                  "interference is recorded after every iteration. No fault kinds exist for this property. distinct = distinct event-log digests; non-trivial = at least one solve and two operations"),
-        "assumptions": ["the channel is fixed within a plan; the stream configuration is fixed within a plan so that precoders and filters set through the setters stay dimensionally consistent",
+        "assumptions": ["the stream configuration asked for is fixed within a plan (solves may drop streams, the stream-search drivers may reduce them; the model follows solver.Ns); the channel object may be re-randomised with other dimensions between two solves (operation rechannel), and its noise variance changed",
                         "identity of the compensated direct channel is checked with tolerance 1e-8*cond and skipped (counted) when cond > 1e8, i.e. where the statement says 'defined'",
                         "monotone leakage is only asserted for alternating minimisation and minimum leakage with equal powers and no noise, as stated",
                         "every RandomState reachable from the solver object (incl. nested helper solvers) is re-seeded through a private attribute walk: a documented read-only seam"],
-        "components": {"real": ["pyphysim.ia.iabase.IASolverBaseClass", "ClosedFormIASolver, AlternatingMinIASolver, MinLeakageIASolver, MaxSinrIASolver, MMSEIASolver", "MultiUserChannelMatrix"],
-                       "fake": ["operation scheduler", "RandomState seeds"], "stub_or_not_run": ["GreedStreamIASolver, BruteForceStreamIASolver (not anchored by the property)"]},
+        "components": {"real": ["pyphysim.ia.iabase.IASolverBaseClass", "ClosedFormIASolver, AlternatingMinIASolver, MinLeakageIASolver, MaxSinrIASolver, MMSEIASolver", "GreedStreamIASolver and BruteForceStreamIASolver driving the solver under test (operation stream_search)", "MultiUserChannelMatrix"],
+                       "fake": ["operation scheduler", "RandomState seeds"], "stub_or_not_run": []},
     },
     "C14": {
         "measure": '(operation trigram, decade of the stream position, decade of the request size)',
@@ -110,13 +110,15 @@ DEFS = {
             "quick": [{"name": "request/skip histories", "n": 60000, "wall": 50, "opts": {"chunk": 50}}],
             "thorough": [{"name": "request/skip histories", "n": 2000000, "wall": 840, "opts": {"chunk": 100}}],
         },
-        "rule": ("plan = generator configuration (Fd 0..500 Hz, Ts 1e-9..1 s, L 1-16 rays, shape None/int/tuple, RandomState seed) and 1-40 operations from generate(n) (n 1..1e5, also None), "
-                 "skip(n) (clock jumps, cumulative positions to ~1e10 samples) and get_samples(); biased to small requests at large positions. The only 'fault' is the clock jump itself. "
+        "rule": ("plan = generator configuration (Fd 0..500 Hz, Ts 1e-9..1 s, L 1-16 rays incl. odd counts, shape None/int/tuple (also as list / numpy ints), RandomState seed) and 1-40 operations from generate(n) (n 1..1e5, also None, "
+                 "coincidences with L and prod(shape)), skip(n) (clock jumps incl. 0, cumulative positions to ~1e10 samples), get_samples(), bursts of tiny requests, the shape setter, clones (copy/deepcopy/pickle; both objects must continue "
+                 "the same process), similar generators up to the second generation; the last three delivered blocks are held and must not be rewritten; 0.15 % of the plans make one request of 5e6..3e7 ray-samples (L up to 64). "
+                 "Biased to small requests at large positions. The only 'fault' is the clock jump itself. "
                  "distinct = distinct event-log digests; non-trivial = at least one request and two operations"),
         "assumptions": ["the reference model evaluates h(k*Ts) with an integer sample counter and the generator's own phases (_phi_l/_psi_l, named by the property as 'the generator's fixed random phases')",
                         "tolerance sqrt(L)*2*pi*Fd*Ts*0.01 + 1e-9: the implementation's legitimate timing deviations (step factor 1.0000000001, float accumulation bounded by the plan generator) stay below 1e-3 sample, a one-sample slip is ~100x above",
                         "#operations x position <= 4.5e12 so that legitimate float accumulation of the generator's clock stays below 1e-3 sample"],
-        "components": {"real": ["pyphysim.channels.fading_generators.JakesSampleGenerator"], "fake": ["request/skip scheduler (the generator's clock is jumped with skip)", "RandomState seed"], "stub_or_not_run": []},
+        "components": {"real": ["pyphysim.channels.fading_generators.JakesSampleGenerator"], "fake": ["request/skip scheduler (the generator's clock is jumped with skip)", "RandomState seed", "clones of the generator (copy / deepcopy / pickle) and similar generators up to the second generation are real objects made by the world"], "stub_or_not_run": []},
     },
     "C03": {
         "measure": '(channel kind, fading generator, transmission domain, direction switched?, path loss set?, previous transmission domain, selection kind)',
@@ -146,11 +148,11 @@ DEFS = {
         "rule": ("plan = one path-loss model (general, free space, 3GPP, METIS PS7 LOS/NLOS with 0-5 walls, Okumura-Hata) and 1-12 operations from parameter setters (valid and INVALID values: "
                  "a rejected setter is the only fault-like event), the small-distance policy flag, and evaluations; after every step 18 distances over the model's range (six decades where "
                  "the model allows) as array and scalar. distinct = distinct event-log digests; non-trivial = at least two operations"),
-        "assumptions": ["shadowing is never enabled (random by design, not in the statement)",
+        "assumptions": ["while shadowing is switched on (operation shadow) only the policy relations are asserted: no negative loss unless the model raises, raising only under the raise policy, linear = 10^(-dB/10) in (0,1] for the same draw, inverse queries equal to those with shadowing off; after it is switched off the exact relations must hold again",
                         "the inverse is only asserted where it is offered (general, free space, 3GPP); Okumura-Hata raises NotImplementedError and METIS returns None",
                         "the antenna-gain clause is a pure function and is evaluated once per plan as a side assertion only"],
         "components": {"real": ["pathloss.PathLossGeneral/PathLossFreeSpace/PathLoss3GPP1/PathLossMetisPS7/PathLossOkomuraHata", "antennagain.AntGainBS3GPP25996"],
-                       "fake": ["setter scheduler"], "stub_or_not_run": ["shadowing"]},
+                       "fake": ["setter scheduler", "numpy's GLOBAL random generator (the library draws the shadowing from it): re-seeded by the world before every query made while shadowing is on"], "stub_or_not_run": []},
     },
     "C15": {
         "measure": '(class, M, last mutator, Gray violated?)',
@@ -162,7 +164,7 @@ DEFS = {
         "rule": ("plan = construct PSK(M, phase) for M = 2..2^10 (thorough: 2^12), QAM(M) for M = 4..4^5 (thorough: 4^6), BPSK or QPSK, then 0-6 setPhaseOffset calls; after every step every "
                  "ordered pair of symbols at minimum distance (1e-9 relative) must carry labels differing in exactly one bit. History clause only: the code conversions are pure and not decided here. "
                  "distinct = distinct event-log digests; non-trivial = at least one setPhaseOffset or M >= 16"),
-        "assumptions": ["adjacency = symbols at minimum Euclidean distance within 1e-9 relative", "own popcount; binary2gray/gray2binary/count_bit_errors are not under test here"],
+        "assumptions": ["adjacency = symbols at minimum Euclidean distance within 1e-9 relative", "own popcount; binary2gray/gray2binary/count_bit_errors are not under test here", "for M <= 256 the same statement is also checked operationally: label i sent, received exactly on a nearest neighbour, decided by the modulator's own demodulate(); the cost must be one bit"],
         "components": {"real": ["modulators.fundamental.PSK/QAM/BPSK/QPSK"], "fake": ["operation scheduler"], "stub_or_not_run": []},
     },
 }
